@@ -254,8 +254,14 @@ def parse_source(src):
     return build.parser('specification').parse(src['text'])
 
 
+def _quantifiers(obj):
+    return [n for n in obj.iterate() if type(n).__name__ == 'HplQuantifier']
+
+
 def applicable_ops(h):
     ops = list(OPS_ANY)
+    if h.kind in ('expression', 'predicate', 'event', 'property') and _quantifiers(h.obj):
+        ops += ['quant_redomain', 'quant_recondition'] * 4
     if h.kind == 'expression':
         ops += OPS_EXPR * 2
     elif h.kind == 'predicate':
@@ -300,7 +306,12 @@ def do_op(name, h, h2, op, pool, schema, msg_types):
         return obj.children(), None
     if name == 'subtree':
         nodes = list(obj.iterate())
-        return nodes[op['sel'] % len(nodes)], None
+        if op['sel'] & 1:
+            # bias towards node kinds whose constructors look at grandchildren
+            special = [n for n in nodes if type(n).__name__ in ('HplQuantifier', 'HplSimpleEvent', 'HplPredicateExpression', 'HplFunctionCall', 'HplSet', 'HplRange')]
+            if special:
+                nodes = special
+        return nodes[(op['sel'] >> 1) % len(nodes)], None
     if name == 'but_same':
         cf = [a.name for a in attrs.fields(type(obj)) if a.init and a.name != 'metadata']
         if not cf:
@@ -313,15 +324,32 @@ def do_op(name, h, h2, op, pool, schema, msg_types):
         if not cf:
             return obj.but(), 'same'
         fname, arity = cf[op['sel'] % len(cf)]
-        donors = [n for n in h2.obj.iterate()]
+        cur = getattr(obj, fname)
+        cur0 = cur[0] if arity == 'many' else cur
+        donors = [n for n in h2.obj.iterate()] + synth_donors()
+        if (op['sel'] >> 2) & 3:
+            # mostly offer a replacement of a compatible kind (the interesting copies succeed)
+            good = [n for n in donors if compatible(cur0, n)]
+            if good:
+                donors = good
         donor = donors[(op['sel'] >> 4) % len(donors)]
         if arity == 'many':
-            cur = getattr(obj, fname)
             i = (op['sel'] >> 8) % len(cur)
             val = cur[:i] + (donor,) + cur[i + 1:]
         else:
             val = donor
         return obj.but(**{fname: val}), ('changed', fname, val)
+    if name == 'quant_redomain':
+        qs = _quantifiers(obj)
+        q = qs[op['sel'] % len(qs)]
+        doms = [d for d in synth_donors() if d.data_type.can_be_set or d.data_type.can_be_range or d.data_type.can_be_array]
+        doms += [n for n in h2.obj.iterate() if type(n).__name__ in ('HplSet', 'HplRange')]
+        return q.but(domain=doms[(op['sel'] >> 5) % len(doms)]), None
+    if name == 'quant_recondition':
+        qs = _quantifiers(obj)
+        q = qs[op['sel'] % len(qs)]
+        others = [x for x in _quantifiers(h2.obj) if x.variable == q.variable] or qs
+        return q.but(condition=others[(op['sel'] >> 5) % len(others)].condition), None
     if name == 'set_metadata':
         obj.metadata[op['key']] = op['val']
         return None, 'user_mutation'
@@ -340,7 +368,7 @@ def do_op(name, h, h2, op, pool, schema, msg_types):
     if name == 'replace_self_reference':
         return obj.replace_self_reference(_an_expr(h2, op)), None
     if name == 'replace_var_reference':
-        return obj.replace_var_reference('A', _an_expr(h2, op)), None
+        return obj.replace_var_reference(_an_alias(obj, op), _an_expr(h2, op)), None
     if name == 'type_check_expr':
         return obj.type_check_references(schema, {'A': schema}), None
     if name == 'type_check_pred':
@@ -368,7 +396,7 @@ def do_op(name, h, h2, op, pool, schema, msg_types):
         other = h2.obj if h2.kind == 'predicate' else obj
         return obj.join(other), None
     if name == 'pred_replace_var':
-        return obj.replace_var_reference('A', _an_expr(h2, op)), None
+        return obj.replace_var_reference(_an_alias(obj, op), _an_expr(h2, op)), None
     if name == 'pred_replace_self':
         return obj.replace_self_reference(_an_expr(h2, op)), None
     if name == 'condition':
@@ -390,6 +418,40 @@ def do_op(name, h, h2, op, pool, schema, msg_types):
     if name == 'sanity_check':
         return obj.sanity_check(), None
     raise core.HarnessError('unknown op %s' % name)
+
+
+_SYNTH_TEXTS = ('[1 to 3]', '![0 to 2]', '{1, 2}', '{0}', '2', '0', 'True', '"a"', 'xs', 'x', '@B.x', '(x + 1)', '(p and q)', '(not p)')
+_synth = []
+
+
+def synth_donors():
+    """Freshly parsed small expressions offered as replacement children (literal ranges, sets, ...)."""
+    if not _synth:
+        for t in _SYNTH_TEXTS:
+            _synth.append(build.parser('expression').parse(t))
+    return list(_synth)
+
+
+def _an_alias(obj, op):
+    try:
+        refs = sorted(obj.external_references())
+    except Exception:
+        refs = []
+    if refs and (op['sel'] >> 6) & 3:
+        return refs[(op['sel'] >> 9) % len(refs)]
+    return 'A'
+
+
+def compatible(cur, new):
+    from hpl.ast.expressions import HplExpression
+    from hpl.ast.events import HplEvent
+    from hpl.ast.predicates import HplPredicate
+    if isinstance(cur, HplExpression):
+        return isinstance(new, HplExpression) and bool(cur.data_type & new.data_type)
+    for base in (HplEvent, HplPredicate):
+        if isinstance(cur, base):
+            return isinstance(new, base)
+    return type(cur) is type(new)
 
 
 def _an_expr(h2, op):
